@@ -236,7 +236,7 @@ Lemma split_ev (s : vsock) :
 Proof.
   intro Hok. unfold split_tx_queue_into_segments.
   destruct (_ =? 0).
-  { cbn [stp]. apply (D0_one (EvTxFlag ToRegisterIfEmpty)); try reflexivity.
+  { cbn [stp]. apply (D0_one EvRegister); try reflexivity.
     - unfold rfin; vsimpl; auto.
     - vsimpl; auto. }
   match goal with |- context [is_remote_fin_or_later (v_state ?S)] => set (s1 := S) end.
@@ -255,7 +255,7 @@ Proof.
       split; [|split; [unfold add_wakes; vsimpl; reflexivity|]].
       + eapply D0_trans; [exact Hg|].
         apply (D0_one (EvTxFlag ToWakeWriter)); try reflexivity.
-        * unfold dview_of, add_wakes; vsimpl. cbn [dapply x_tx is_flag_tx_op tx_step]. rewrite Ew. reflexivity.
+        * unfold dview_of, add_wakes; vsimpl. cbn [dapply x_tx pend_safe_op tx_step]. rewrite Ew. reflexivity.
         * unfold rfin, add_wakes; vsimpl; auto.
         * unfold add_wakes; vsimpl; auto.
       + unfold add_wakes; vsimpl. unfold wake_writer in Ew. injection Ew as <- _. cbn [upd ring]. rewrite Hlen. reflexivity.
